@@ -29,6 +29,15 @@ __CPROVER_ensures(g_nit_calls == __CPROVER_old(g_nit_calls) + (RET != NULL ? 1 :
 __CPROVER_ensures((RET == NULL ? LIVE_SAME : LIVE_IS(RET)) && g_hook_frees == __CPROVER_old(g_hook_frees) && C14_POST(*hooks))
 __CPROVER_assigns(g_nodes[g_nit_calls], g_nit_calls, GHOST_ALLOC);
 
+/* buffer_skip_whitespace as a callee (strict: non-NULL buffer with content), the clauses its own unit proves */
+static parse_buffer *buffer_skip_whitespace_cv(parse_buffer * const buffer)
+__CPROVER_requires(buffer != NULL && __CPROVER_rw_ok(buffer, sizeof(parse_buffer)) && buffer->content != NULL && buffer->offset <= buffer->length)
+__CPROVER_ensures(__CPROVER_pointer_in_range_dfcc(buffer, RET, buffer) && RET == buffer && buffer->offset >= __CPROVER_old(buffer->offset) && buffer->offset <= buffer->length)
+__CPROVER_ensures(__CPROVER_old(buffer->offset) < buffer->length ==> (buffer->offset < buffer->length && (buffer->content[buffer->offset] > 32 || buffer->offset == buffer->length - 1)))
+__CPROVER_ensures(__CPROVER_old(buffer->offset) >= buffer->length ==> buffer->offset == __CPROVER_old(buffer->offset))
+__CPROVER_ensures((g_k >= __CPROVER_old(buffer->offset) && g_k < buffer->offset) ==> buffer->content[g_k] <= 32)
+__CPROVER_assigns(buffer->offset);
+
 /* parse_value / parse_string as callees of a container: the usual parse contract plus the call log */
 #define PV_LOG_CV(name, kindv, extra_ok) \
 static cJSON_bool name(cJSON * const item, parse_buffer * const input_buffer) \
@@ -139,7 +148,7 @@ cJSON *g_dlog[4]; size_t g_dlogn;
 #define OWNS_KEY(t) (!((t) & cJSON_StringIsConst))
 #define RECURSES(n) (OWNS_VS(__CPROVER_old((n)->type)) && __CPROVER_old((n)->child) != NULL)
 CJSON_PUBLIC(void) cJSON_Delete(cJSON *item)
-__CPROVER_requires((global_hooks.deallocate == vf_free || global_hooks.deallocate == vf_libc_free) && g_tok1 != NULL && g_tok2 != NULL && g_dlogn < 3)
+__CPROVER_requires(global_hooks.deallocate == vf_free && g_tok1 != NULL && g_tok2 != NULL && g_dlogn < 3)
 __CPROVER_requires(IS_TOK(item) || item == NULL || (g_dlogn == 0 && DNODE_OK(item) && (item->next == NULL || (DNODE_OK(item->next) && item->next->next == NULL))))
 /* abstract subtree: only logged */
 __CPROVER_ensures(IS_TOK(item) ==> (g_dlogn == __CPROVER_old(g_dlogn) + 1 && g_dlog[__CPROVER_old(g_dlogn)] == item))
